@@ -107,8 +107,13 @@ CLAIMED = {
               "the fold of the split top corner and zero padding) agrees with the real _map_asm2gap to 1e-11 on generated "
               "mesh pairs every run, and the property's clauses are evaluated on the real matrices; on real cores the perimeter "
               "weights the core applies to gap-mesh fluxes must be the cell lengths of the gap mesh the maps were built on "
-              "(also when the two hex sides meeting in the top corner see different neighbours)."),
-        note=COMMON_NOTE + ("T3 hand model + differential correspondence (doubles exchanged as bit patterns).  Partial: "
+              "(also when the two hex sides meeting in the top corner see different neighbours).  The duct-cell boundaries the "
+              "maps are built on: the real RoddedRegion.calculate_xbnds is traced on 7- and 19-pin bundles with one to three ducts; "
+              "generated theorems (Gen/C10X.lean), with the corner length replaced by the traced calculate_geometry formula: "
+              "the walk closes (closing half corner = opening half = corner half-length on the OUTER face of the OUTERMOST duct) "
+              "and every cell in between is one pin pitch or one whole corner - the duct mesh tiles the perimeter 6 F / sqrt 3."),
+        note=COMMON_NOTE + ("T3 hand model + differential correspondence (doubles exchanged as bit patterns); T1 trace of "
+                            "calculate_xbnds tied to Gen/C08Geo.  Partial: "
                             "the algebra of the corner fold (merging the first and last half cell) is validated by the "
                             "oracle on the real matrices, not yet by a theorem."),
         technique="Lean 4 proof (interval-overlap telescoping, double-sum swap) over hand model + differential correspondence",
@@ -139,7 +144,7 @@ CLAIMED = {
               "instantiated on the kernel-certified real tables, and 100 generated identities show that in energy form every "
               "traced neighbour weight of every neighbour-type class is such a symmetric coefficient.  Low-fidelity and "
               "multi-region assemblies, temperature-dependent coolant, flow continuity between steps and the mixed-mean "
-              "carry-over are decided by driving real reactors plane by plane."),
+              "carry-over are decided by driving real reactors plane by plane.  Low-fidelity regions: the real _calc_coolant_temp of the single-node and six-node models (low-flow approximation on/off, coupled or adiabatic wall) is traced WITH its tallies; eight generated theorems (Gen/C01Ur.lean): enthalpy-flow change of the node(s) = tallied power + tallied wall heat, tallied power = q dz, conduction between the six nodes sums to zero.  The reactor oracle also requires the subchannel flows of every region to sum to the assembly flow (all flow-split correlations, incl. SE2 / MIT / Novendstern)."),
         note=COMMON_NOTE + ("T1b symbolic execution (whole-bundle); hypotheses of the theorems: 6*q_interior = 1 for "
                             "the pin-to-subchannel fraction literal 0.166666666666667 (defect 2e-15), equal swirl "
                             "velocity for edge and corner cells (checked on real regions), positive divisors.  "
@@ -159,7 +164,10 @@ CLAIMED = {
               "by plane and the per-step core balance and the gap-side balance are checked; adiabatic cores exchange nothing "
               "(bypass coolant included); per assembly the heat leaving the duct equals the heat the gap mesh receives from "
               "it (1e-5); the gap conduction resistances of every built core are symmetric; steps on which an assembly "
-              "changes region and same-ring / different-pitch neighbours are included."),
+              "changes region and same-ring / different-pitch neighbours are included; every sixth core each has six-node "
+              "regions with their own convection factor, the low-flow convection approximation (with and without duct heating), "
+              "double-ducted types (with the approximation or a stagnant bypass) - the last three are known findings "
+              "(known_findings.json), two six-node defects and one double-duct defect found there are repaired."),
         note=COMMON_NOTE + ("T1b symbolic execution of Core._flow_model/_update_energy_balance/_make_conv_mask on real cores; "
                             "hand list-level interface theorem tied to the code through C10's correspondence.  Larger cores, "
                             "region changes and six-node regions are covered by the oracle only."),
@@ -195,13 +203,18 @@ CLAIMED = {
               "real setup/update/limit functions on real regions on every run.  The same, per cell, for the inter-assembly "
               "gap (real Core._flow_model and core.calculate_min_dz traced on 2- and 3-assembly cores, 49 cells) and per node "
               "for the low-fidelity regions (simple / six-node, low-flow approximation, adiabatic; 26 nodes): generated "
-              "theorems with their proofs.  Reactor-level step selection, the no-flow / duct-average gap models and the "
-              "temperature range are decided by linear probing of the real operators at the selected step."),
+              "theorems with their proofs.  No-flow and duct-average gap models: the real Core._noflow_model / "
+              "_duct_average_model (+ _make_conv_mask) are traced on 2- and 3-assembly cores built with those models; per gap cell "
+              "(98 cells) a generated theorem that the new temperature is the combination of the adjacent duct-wall and neighbouring "
+              "gap temperatures with the traced weights, all non-negative and summing to one, and a corollary (Lemmas/Convex.lean) "
+              "that it stays between any bounds of them.  Reactor-level step selection (also with param_update_tol > 0: the limit "
+              "as the Reactor takes it, on the bundle as built) and the temperature range are decided by linear probing of the "
+              "real operators at the selected step."),
         note=COMMON_NOTE + ("T1b symbolic execution (harness/bundle_trace.py) of _setup_ht_constants, "
                             "_calc_coolant_int_temp, _calc_coolant_byp_temp, _calculate_int_dz/_byp_dz; all cells of a "
                             "class must agree exactly with the class representative.  Partial: the whole-temperature-range "
-                            "clause (known finding: limit evaluated at the range ends only) and the no-flow / duct-average gap "
-                            "models are covered by the probing oracle only (tests, not theorems)."),
+                            "clause (known finding: limit evaluated at the range ends only) is covered by the probing oracle only "
+                            "(a test, not a theorem); gap-model theorems are per cell of the traced cores, other layouts by probing."),
         technique="Lean 4 proof over symbolically traced update + limit (per class) + linear probing oracle",
         design="5/C04"),
     "C12": dict(
@@ -248,13 +261,17 @@ CLAIMED = {
               "accumulate independently and are non-negative; with the half-open grid test every grid in (0, L] is "
               "counted by exactly one step for every strictly increasing plane list, so the grid part is (number of "
               "grids) x (one loss) also when several grids share a step; with the original strict test a grid on a "
-              "plane is counted by no step (the defect, now fixed).  The fold model reproduces the real "
+              "plane is counted by no step (the defect, now fixed).  The rule of the corrected code - previous position < grid <= "
+              "position, comparisons only - is proved to count every grid exactly once in ANY linear order (c14_planes_once, "
+              "c14_planes_total), hence also in the floating-point arithmetic of the running code, where z - dz is not the previous "
+              "plane (0.03 - 0.01 < 0.02: second defect, fixed); tied to real sweeps over decimal meshes with grids on planes and "
+              "on the bundle top (driver op dpp).  The fold model reproduces the real "
               "RoddedRegion.calculate_pressure_drop on random step histories and real reactors are swept with "
               "different step sizes."),
         note=COMMON_NOTE + ("T1 trace of the increments + T3 fold model with correspondence on real regions (doubles as "
                             "bit patterns, 1e-10) and an oracle on real reactors (dyadic steps with grids on planes).  "
-                            "Constant properties are assumed for the closed forms; z - dz is exact in the model while the "
-                            "code accumulates z in floating point."),
+                            "Constant properties are assumed for the closed forms; c14_grid_once needs exact z - dz, "
+                            "c14_planes_once does not."),
         technique="Lean 4 proof (fold/telescoping, double counting) over traced increments + hand fold model + correspondence",
         design="5/C14"),
     "C15": dict(
